@@ -44,6 +44,7 @@ class ArcEdgeBase(Edge, abc.ABC):
             arm_1 = self.vertex_1.position - self.third_point.position
             arm_2 = self.vertex_2.position - self.third_point.position
 
-            return abs(f.norm(np.cross(arm_1, arm_2))) > constants.TOL
+            # (the sine of the angle between the arms: independent of model size)
+            return f.norm(np.cross(arm_1, arm_2)) > constants.TOL * f.norm(arm_1) * f.norm(arm_2)
 
         return False
